@@ -218,24 +218,34 @@ WITNESS_SRC = """module m
     integer :: c = 0
   contains
     procedure, nopass :: tb => f
+    procedure, nopass :: tb2 => s
   end type t_t
   interface
     function g1(a) result(res)
       integer, intent(in) :: a
-      integer(kind=kind(1<2)) :: res
+      import :: k, n
+      integer(kind=kind(k<n)) :: res
     end function g1
     function g2(a) result(res)
       integer, intent(in) :: a
-      character(len=kind(1<2)) :: res
+      import :: k, n
+      character(len=kind(k<n)) :: res
     end function g2
     function g3(a) result(res)
       integer, intent(in) :: a
-      integer, dimension(merge(2,3,1<2)) :: res
+      import :: k, n
+      integer, dimension(merge(2,3,k<n)) :: res
     end function g3
     function g4(a) result(res)
       integer, intent(in) :: a
-      integer :: res(merge(2,3,1<2))
+      import :: k, n
+      integer :: res(merge(2,3,k<n))
     end function g4
+    function g5(a) result(res)
+      integer, intent(in) :: a
+      import :: k, n
+      type(t_t(k<n)) :: res
+    end function g5
   end interface
 contains
   subroutine s(a) bind(c, name="s<u>name")
@@ -300,10 +310,14 @@ def witness_facts():
         rv = [R.squash(R.browser_text(h)) for h in pp.find_all(["h3", "h4"]) if R.browser_text(h).startswith("Return Value")]
         facts["site:proc_page.html:procedure.retvar.full_declaration | relurl(page_url)#1"] = \
             bool(rv) and not any("integer(kind=kind(k<n))" in x for x in rv)
-        for name, key, want in (("g1", "nongenint_page.html:var.kind#1", "integer(kind=kind(1<2))"),
-                                ("g2", "nongenint_page.html:var.strlen#1", "character(len=kind(1<2))"),
-                                ("g3", "nongenint_page.html:attrib#1", "dimension(merge(2,3,1<2))"),
-                                ("g4", "nongenint_page.html:var.dimension#1", "(merge(2,3,1<2))")):
+        tbh = [R.browser_text(h) for h in tp.find_all(["h2", "h3", "h4"])]
+        facts["site:macros.html:proc.bindC#2"] = any("subroutine s" in h.replace("  ", " ") for h in tbh) and \
+            not any('name="s<u>name"' in h for h in tbh)
+        for name, key, want in (("g1", "nongenint_page.html:var.kind#1", "integer(kind=kind(k<n))"),
+                                ("g2", "nongenint_page.html:var.strlen#1", "character(len=kind(k<n))"),
+                                ("g3", "nongenint_page.html:attrib#1", "dimension(merge(2,3,k<n))"),
+                                ("g4", "nongenint_page.html:var.dimension#1", "(merge(2,3,k<n))"),
+                                ("g5", "nongenint_page.html:var.proto[1]#1", "(k<n)")):
             ip = BeautifulSoup(_page(doc, f"interface/{name}.html"), "html.parser")
             rv = [R.squash(R.browser_text(h)) for h in ip.find_all(["h3", "h4"]) if R.browser_text(h).startswith("Return Value")]
             facts["site:" + key] = bool(rv) and not any(want in x for x in rv)
